@@ -37,6 +37,7 @@ FALSE = Val.bool(z3.BoolVal(False))
 cls_of = z3.Function('cls_of', I, I)
 sub = z3.Function('sub', I, I, z3.BoolSort())
 # uninterpreted helpers
+isjson = z3.Function('isjson', Val, z3.BoolSort())        # deep: the value was JSON on entry
 deep_eq = z3.Function('deep_eq', Val, Val, z3.BoolSort())
 pystr = z3.Function('pystr', Val, z3.StringSort())          # str(v) for non-str v
 pyrepr = z3.Function('pyrepr', Val, z3.StringSort())
